@@ -58,16 +58,25 @@ Theorem C19_nothing_bound s pobj r :
 Proof. exact (partial_nothing_bound_params s pobj r). Qed.
 Print Assumptions C19_nothing_bound.
 
-(* ---- partial objects with bound KEYWORDS, all valid signatures (Proofs/MaskNames.v) ---- *)
-Theorem C19_names_exact : forall (ps : list param) (n : nat) (names0 : list name) (v : name -> N) (pobj : N), valid_sig ps = true -> NoDup names0 -> names_avoid_po ps names0 = true -> names_avoid_stars ps names0 = true -> match sig_partial (mk ps) n (map (fun k : name => (k, v k)) names0) pobj with | Ok r => forall c : call, noncolliding c (params r) [ps] = true -> accepts (params r) c = accepts ps (partial_call n names0 c) | Err e => e = ValueErr /\ (forall c : call, accepts ps (partial_call n names0 c) = false) end.
+(* ---- partial objects with bound KEYWORDS, all valid signatures (Proofs/MaskNames.v): the keywords may
+   name keyword-passable parameters, foreign names and positional-only parameters among the bound
+   positionals; a remaining positional-only parameter or a star parameter is refuted ---- *)
+Theorem C19_names_exact : forall (ps : list param) (n : nat) (names0 : list name) (v : name -> N) (pobj : N), valid_sig ps = true -> NoDup names0 -> names_passable_n ps n names0 = true -> match sig_partial (mk ps) n (map (fun k : name => (k, v k)) names0) pobj with | Ok r => forall c : call, noncolliding c (params r) [ps] = true -> accepts (params r) c = accepts ps (partial_call n names0 c) | Err e => e = ValueErr /\ (forall c : call, accepts ps (partial_call n names0 c) = false) end.
 Proof. exact @MaskNamesProps.C19_names_exact. Qed.
 Print Assumptions C19_names_exact.
 
-Theorem C19_partial_names_exact : forall (s : sigT) (n : nat) (kw : list (name * N)) (pobj : N), valid_sig (params s) = true -> NoDup (map fst kw) -> names_passable (params s) (map fst kw) = true -> match sig_partial s n kw pobj with | Ok r => forall c : call, noncolliding c (params r) [params s] = true -> accepts (params r) c = accepts (params s) (partial_call n (map fst kw) c) | Err e => e = ValueErr /\ (forall c : call, accepts (params s) (partial_call n (map fst kw) c) = false) end.
+Theorem C19_partial_names_exact : forall (s : sigT) (n : nat) (kw : list (name * N)) (pobj : N), valid_sig (params s) = true -> NoDup (map fst kw) -> names_passable_n (params s) n (map fst kw) = true -> match sig_partial s n kw pobj with | Ok r => forall c : call, noncolliding c (params r) [params s] = true -> accepts (params r) c = accepts (params s) (partial_call n (map fst kw) c) | Err e => e = ValueErr /\ (forall c : call, accepts (params s) (partial_call n (map fst kw) c) = false) end.
 Proof. exact @MaskNames.partial_names_exact. Qed.
 Print Assumptions C19_partial_names_exact.
 
-Theorem C19_partial_names_exact_refuted : exists (s : sigT) (n : nat) (kw : list (name * N)) (pobj : N) (c : call), valid_sig (params s) = true /\ NoDup (map fst kw) /\ avoid_consumed_po (params s) n (map fst kw) = true /\ sig_partial s n kw pobj = Err ValueErr /\ accepts (params s) (partial_call n (map fst kw) c) = true.
+Theorem C19_partial_names_exact_refuted : exists (s : sigT) (n : nat) (kw : list (name * N)) (pobj : N) (c : call), valid_sig (params s) = true /\ NoDup (map fst kw) /\ avoid_remaining_po (params s) n (map fst kw) = true /\ sig_partial s n kw pobj = Err ValueErr /\ accepts (params s) (partial_call n (map fst kw) c) = true.
 Proof. exact @MaskNames.partial_names_exact_refuted. Qed.
 Print Assumptions C19_partial_names_exact_refuted.
 
+Theorem C19_partial_names_exact_refuted_po : exists (s : sigT) (n : nat) (kw : list (name * N)) (pobj : N) (c : call), valid_sig (params s) = true /\ NoDup (map fst kw) /\ names_avoid_stars (params s) (map fst kw) = true /\ sig_partial s n kw pobj = Err ValueErr /\ accepts (params s) (partial_call n (map fst kw) c) = true.
+Proof. exact @MaskNames.partial_names_exact_refuted_po. Qed.
+Print Assumptions C19_partial_names_exact_refuted_po.
+
+Theorem C19_names_avoid_passable_n : forall (ps : list param) (n : nat) (names0 : list name), names_avoid_po ps names0 = true -> names_avoid_stars ps names0 = true -> names_passable_n ps n names0 = true.
+Proof. exact @MaskNamesProps.names_avoid_passable_n. Qed.
+Print Assumptions C19_names_avoid_passable_n.
